@@ -152,17 +152,20 @@ def check_model(group: ModelGroupType) -> None:
                 raise XMLSchemaModelError(group, msg)
 
             # UPA check
-            if pe is e or not pe.is_overlap(e):
+            if not pe.is_overlap(e):
                 continue
-            elif pe.parent is e.parent and pe.parent is not None:
-                if pe.parent.model in ('all', 'choice'):
+            elif len(previous_path) == len(current_path) and \
+                    all(x is y for x, y in zip(previous_path, current_path)):
+                # same occurrence of the parent group (a named group can be referenced twice)
+                if current_path[-1].model in ('all', 'choice'):  # type: ignore[union-attr]
                     if isinstance(pe, Xsd11AnyElement) and not isinstance(e, XsdAnyElement):
                         pe.add_precedence(e, group)
                     elif isinstance(e, Xsd11AnyElement) and not isinstance(pe, XsdAnyElement):
                         e.add_precedence(pe, group)
                     else:
                         msg = _("{0!r} and {1!r} overlap and are in the same {2!r} group")
-                        raise XMLSchemaModelError(group, msg.format(pe, e, pe.parent.model))
+                        model = current_path[-1].model  # type: ignore[union-attr]
+                        raise XMLSchemaModelError(group, msg.format(pe, e, model))
                 elif pe.is_univocal():
                     continue
 
